@@ -5,7 +5,7 @@
 From Coq Require Import Permutation.
 From CR Require Import Base Atomic Machine LinksFacts HeapFacts TraceFacts TraceTotal Local StackBound
   Termination Perm StdRc StdRefine Tokens InvDef InvLemmas ActBase ActHandles ActAdopt ActMove ActConsume
-  StepFrames StepPanic Purge GroupOps DropDec Group DropLast StepInv RunInv Consequences TablesFrame Recorded Common.
+  StepFrames StepPanic Purge GroupOps DropDec Group DropLast StepInv RunInv Consequences TablesFrame Recorded Determ Common.
 Local Open Scope N_scope.
 
 Theorem C09_trace_result_order_independent :
@@ -84,3 +84,56 @@ Theorem C09_fully_recorded_programs :
   end.
 Proof. exact exec_op_recorded_inv. Qed.
 Print Assumptions C09_fully_recorded_programs.
+
+(** WHOLE RUNS.  "For programs that record every stored handle as an adoption,
+    the set of objects destroyed by each operation, and every count observable
+    afterwards, is a function of the sequence of calls alone": two executions
+    of the same calls -- arbitrary choice oracles (member order of every group
+    teardown) and fuels -- from states that agree return the same results and
+    end in states with the same heap (every counter, value, table, liveness and
+    released flag) and the same registers; the destructor runs and the released
+    tables are the same up to order ([obs_eq]; the model logs no separate
+    "freed" event -- release is the [freed] flag of the heap -- so that clause
+    of [obs_eq] carries no information).  Scope: values without destructor
+    scripts, handles moved only through the link/unlink idiom ([rec_hist],
+    [good], Inv/Recorded.v). *)
+Theorem C09_call_result_is_a_function_of_the_calls :
+  forall pri pri' f f' s s' o,
+  good s -> good s' -> obs_eq s s' -> quiet_op o = true ->
+  RunInv.completed (snd (exec_op pri f s o)) = true -> RunInv.completed (snd (exec_op pri' f' s' o)) = true ->
+  snd (exec_op pri' f' s' o) = snd (exec_op pri f s o) /\
+  obs_eq (fst (exec_op pri f s o)) (fst (exec_op pri' f' s' o)).
+Proof. exact exec_op_oracle_independent. Qed.
+Print Assumptions C09_call_result_is_a_function_of_the_calls.
+
+Theorem C09_history_is_a_function_of_the_calls :
+  forall f f' h h',
+  rec_hist (S f) init_state h -> map fst h' = map fst h ->
+  forallb RunInv.completed (snd (run_history (S f) init_state h)) = true ->
+  forallb RunInv.completed (snd (run_history (S f') init_state h')) = true ->
+  snd (run_history (S f') init_state h') = snd (run_history (S f) init_state h) /\
+  obs_eq (fst (run_history (S f) init_state h)) (fst (run_history (S f') init_state h')).
+Proof. exact run_history_oracle_independent. Qed.
+Print Assumptions C09_history_is_a_function_of_the_calls.
+
+(** ... and "different allocation addresses, hence different internal table
+    iteration orders": the two executions may also start from heaps whose
+    tables list the same records in different orders ([heap_perm]); they stay
+    equal up to table order ([obs_perm]) *)
+Theorem C09_history_independent_of_table_order :
+  forall f f' h s, rec_hist (S f) s h -> forall s' h',
+  good s -> good s' -> obs_perm s s' -> map fst h' = map fst h ->
+  forallb RunInv.completed (snd (run_history (S f) s h)) = true ->
+  forallb RunInv.completed (snd (run_history (S f') s' h')) = true ->
+  snd (run_history (S f') s' h') = snd (run_history (S f) s h) /\
+  obs_perm (fst (run_history (S f) s h)) (fst (run_history (S f') s' h')).
+Proof. exact run_history_table_order_independent. Qed.
+Print Assumptions C09_history_independent_of_table_order.
+
+(** non-vacuity: a two-object cycle collected under two oracles (the logs
+    differ, the theorem applies), and two table orders *)
+Theorem C09_whole_run_nonvacuous :
+  snd (run_history 40 init_state (ex_hist [0; 1]%nat)) = snd (run_history 30 init_state (ex_hist [])) /\
+  obs_eq (fst (run_history 30 init_state (ex_hist []))) (fst (run_history 40 init_state (ex_hist [0; 1]%nat))).
+Proof. exact ex_independent. Qed.
+Print Assumptions C09_whole_run_nonvacuous.
